@@ -6,7 +6,7 @@ from bounded import geo
 
 
 def spec_cutoff(e1, e2):
-    from mofun.detect_bonds import COVALENT_RADII, NON_METALS
+    from specs.bond_tables import COVALENT_RADII, NON_METALS
     return COVALENT_RADII[e1] + COVALENT_RADII[e2] + (0.45 if (e1 in NON_METALS or e2 in NON_METALS) else 0.0)
 
 
@@ -30,8 +30,42 @@ def expected_bonds(els, pos, cell):
     return out
 
 
+SKEW = {'skew1': np.array([[20., 0, 0], [12., 6., 0], [0, 0, 20.]]), 'skew2': np.array([[20., 0, 0], [17., 6., 0], [3., 2., 18.]])}
+
+
+def build_special(spec):
+    """Targeted placements: (a) strongly skewed cells with fractional separations near +-0.5 on two axes; (b) an all-non-metal structure with
+    a through-face bond split unevenly (lower-indexed atom 1.5-1.95 A inside, partner almost on the opposite face)."""
+    from mofun import Atoms
+    rnd = random.Random(spec['seed'])
+    if spec['special'] == 'skew':
+        cell = SKEW[spec['cell']]
+        els, pos = [], []
+        for e1, e2 in (('Cs', 'Cs'), ('Cs', 'I'), ('Ba', 'Rb'), ('Cs', 'Ba')):
+            cut = spec_cutoff(e1, e2)
+            f1 = np.array([rnd.random(), rnd.random(), rnd.random()])
+            for sgn in ((0.5, -0.5, 0.0), (-0.5, 0.5, 0.0), (0.5, 0.5, 0.0), (0.5, -0.5, 0.5)):
+                d = np.array(sgn) + np.array([rnd.uniform(-0.04, 0.04) for _ in range(3)])
+                p1 = f1.dot(cell)
+                p2 = (f1 + d).dot(cell)
+                els += [e1, e2]
+                pos += [geo.wrap(cell, p1 + np.array([7.0 * len(pos), 0, 0])), geo.wrap(cell, p2 + np.array([7.0 * len(pos), 0, 0]))]
+        with quiet():
+            return Atoms(elements=els, positions=np.array(pos), cell=cell), els, np.array(pos), cell
+    cell = geo.CELLS['cubic']
+    els, pos = [], []
+    for k, (depth, dist) in enumerate([(1.55, 1.9), (1.9, 1.95), (1.7, 1.96), (0.2, 1.9), (1.0, 1.5)]):
+        y, z = 3.0 + 3.5 * k, 4.0 + 2.5 * k
+        pos += [np.array([depth, y, z]), geo.wrap(cell, np.array([depth - dist, y, z]))]
+        els += spec.get('elements', ['C', 'C'])
+    with quiet():
+        return Atoms(elements=els, positions=np.array(pos), cell=cell), els, np.array(pos), cell
+
+
 def build(spec):
     from mofun import Atoms
+    if spec.get('special'):
+        return build_special(spec)
     rnd = random.Random(spec['seed'])
     cell = None if spec['cell'] is None else geo.CELLS[spec['cell']]
     els, pos = [], []
@@ -121,6 +155,20 @@ def run(rec, tier, seed):
             rec.case(('cut', e1, e2), group='cutoff')
             if msg:
                 rec.fail('cutoff', 'max_bond_length', msg, {'el1': e1, 'el2': e2}, 'C17/max_bond_length/post')
+    for cname in SKEW:
+        for sd in range(3 if tier == 'quick' else 12):
+            spec = dict(special='skew', cell=cname, seed=seed * 100 + sd)
+            msg = check(spec)
+            rec.case(repr(sorted(spec.items())), group='skewed-cell')
+            if msg:
+                rec.fail('bonds', 'detect_bonds-skew', "%s on %r" % (msg, spec), spec, 'C17/detect_bonds/post')
+    for elements in (['C', 'C'], ['C', 'H'], ['O', 'H'], ['Si', 'Si'], ['S', 'C']):
+        for t in (None, 'shift', 'perm'):
+            spec = dict(special='uneven-face', elements=elements, seed=seed, transform=t, cell='cubic')
+            msg = check(spec)
+            rec.case(repr(sorted(spec.items(), key=str)), group='uneven-through-face')
+            if msg:
+                rec.fail('bonds', 'detect_bonds-face', "%s on %r" % (msg, spec), spec, 'C17/detect_bonds/post')
     nseed = 6 if tier == 'quick' else 40
     for cell in (None, 'cubic', 'tri+', 'tri-'):
         for pairs in (1, 2, 4):
